@@ -36,14 +36,14 @@ import (
 type Fix struct {
 	E *sim.Env
 
-	Owner, Other, LP, Admin, Risk, Newbie sdk.AccAddress
+	Owner, Other, LP, Admin, Risk, Newbie, RiskTwin sdk.AccAddress
 
 	// assets
-	CMDX, CMST, HARBOR, ATOM, USDC, GOVC, CCMDX, CCMST, CATOM uint64
+	CMDX, CMST, HARBOR, ATOM, USDC, GOVC, CCMDX, CCMST, CATOM, GOVT uint64
 	// apps
-	AppHarbor, AppCommodo, AppCswap, AppDecoy uint64
+	AppHarbor, AppCommodo, AppCswap, AppDecoy, AppTwin uint64
 	// vault products
-	EpCmdx, EpAtom, EpStable, EpStable2 uint64
+	EpCmdx, EpAtom, EpStable, EpStable2, EpTwin uint64
 	// lend
 	Pool, PairCmdxCmst, PairAtomCmst, PairCmdxAtom uint64
 	// liquidity
@@ -70,7 +70,7 @@ func mustOK(r sim.Result, what string) {
 func coin(denom string, n int64) sdk.Coin { return sdk.NewCoin(denom, i(n)) }
 
 var denomOf = map[string]string{"CMDX": "ucmdx", "CMST": "ucmst", "HARBOR": "uharbor", "ATOM": "uatom", "USDC": "uusdc",
-	"GOVC": "ugovc", "CCMDX": "uccmdx", "CCMST": "uccmst", "CATOM": "ucatom"}
+	"GOVC": "ugovc", "GOVT": "ugovt", "CCMDX": "uccmdx", "CCMST": "uccmst", "CATOM": "ucatom"}
 
 func (f *Fix) addAsset(name string, priced, mintable bool) uint64 {
 	e := f.E
@@ -159,7 +159,7 @@ func fund(e *sim.Env, to sdk.AccAddress, coins ...sdk.Coin) {
 // authorisation logic and not for lack of funds.
 func NewFixture() *Fix {
 	e := sim.New(nil)
-	f := &Fix{E: e, Owner: sim.Addr("owner"), Other: sim.Addr("other"), LP: sim.Addr("lp"), Admin: sim.Addr("admin"), Risk: sim.Addr("risk"), Newbie: sim.Addr("newbie")}
+	f := &Fix{E: e, Owner: sim.Addr("owner"), Other: sim.Addr("other"), LP: sim.Addr("lp"), Admin: sim.Addr("admin"), Risk: sim.Addr("risk"), Newbie: sim.Addr("newbie"), RiskTwin: sim.Addr("risktwin")}
 
 	f.CMDX = f.addAsset("CMDX", true, false)
 	f.CMST = f.addAsset("CMST", true, true)
@@ -182,8 +182,11 @@ func NewFixture() *Fix {
 	f.AppCommodo = f.addApp("commodo", "cmdo", f.GOVC, f.LP)
 	f.AppCswap = f.addApp("cswap", "cswap", 0, nil)
 	f.AppDecoy = f.addApp("decoy", "decoy", 0, nil)
+	// a second vault app ("twin") that sits in the same liquidation / auction loops as harbor
+	f.GOVT = f.addAsset("GOVT", false, false)
+	f.AppTwin = f.addApp("twinvault", "twin", f.GOVT, f.LP)
 
-	for _, u := range []sdk.AccAddress{f.Owner, f.Other, f.LP, f.Risk, f.Newbie} {
+	for _, u := range []sdk.AccAddress{f.Owner, f.Other, f.LP, f.Risk, f.Newbie, f.RiskTwin} {
 		fund(e, u, coin("ucmdx", 1000000*unit), coin("ucmst", 1000000*unit), coin("uatom", 1000000*unit), coin("uusdc", 1000000*unit))
 	}
 	fund(e, f.Admin, coin("ucmdx", 10*unit))
@@ -191,6 +194,7 @@ func NewFixture() *Fix {
 	// governance tokens of both apps (genesis mint through the tokenmint message)
 	mustOK(e.Deliver(&tokenminttypes.MsgMintNewTokensRequest{From: f.LP.String(), AppId: f.AppHarbor, AssetId: f.HARBOR}), "mint harbor")
 	mustOK(e.Deliver(&tokenminttypes.MsgMintNewTokensRequest{From: f.LP.String(), AppId: f.AppCommodo, AssetId: f.GOVC}), "mint govc")
+	mustOK(e.Deliver(&tokenminttypes.MsgMintNewTokensRequest{From: f.LP.String(), AppId: f.AppTwin, AssetId: f.GOVT}), "mint govt")
 
 	// ---- vault products (app harbor)
 	p1 := f.addPair(f.CMDX, f.CMST)
@@ -200,6 +204,7 @@ func NewFixture() *Fix {
 	f.EpAtom = f.addExtPair(f.AppHarbor, p2, "ATOM-A", false, false, "0.01")
 	f.EpStable = f.addExtPair(f.AppHarbor, p3, "USDC-PSM", true, false, "0.01")
 	f.EpStable2 = f.addExtPair(f.AppHarbor, p3, "USDC-PSMB", true, false, "0.01")
+	f.EpTwin = f.addExtPair(f.AppTwin, p1, "CMDX-T", false, true, "0.01")
 
 	// ---- collector / locker configuration (app harbor, CMST)
 	must(e.App.CollectorKeeper.WasmSetCollectorLookupTable(e.Ctx, &bindings.MsgSetCollectorLookupTable{AppID: f.AppHarbor,
@@ -220,7 +225,7 @@ func NewFixture() *Fix {
 	// ---- liquidation / auction configuration
 	dutch := liquidationsV2types.DutchAuctionParam{Premium: d("1.2"), Discount: d("0.7"), DecrementFactor: i(1)}
 	english := liquidationsV2types.EnglishAuctionParam{DecrementFactor: i(1)}
-	for _, app := range []uint64{f.AppHarbor, f.AppCommodo} {
+	for _, app := range []uint64{f.AppHarbor, f.AppCommodo, f.AppTwin} {
 		e.App.NewliqKeeper.SetLiquidationWhiteListing(e.Ctx, liquidationsV2types.LiquidationWhiteListing{AppId: app, Initiator: true,
 			IsDutchActivated: true, DutchAuctionParam: &dutch, IsEnglishActivated: true, EnglishAuctionParam: &english, KeeeperIncentive: d("0.1")})
 	}
@@ -228,7 +233,8 @@ func NewFixture() *Fix {
 		WithdrawalFee: d("0.0"), ClosingFee: d("0.0"), MinUsdValueLeft: 100000, BidFactor: d("0.1"), LiquidationPenalty: d("0.1"), AuctionBonus: d("0.0")})
 	// V1 liquidation whitelist + V1 auction params (the V1 hooks are called directly, they are not wired in the app)
 	must(e.App.LiquidationKeeper.WasmWhitelistAppIDLiquidation(e.Ctx, f.AppHarbor))
-	for _, app := range []uint64{f.AppHarbor, f.AppCommodo} {
+	must(e.App.LiquidationKeeper.WasmWhitelistAppIDLiquidation(e.Ctx, f.AppTwin))
+	for _, app := range []uint64{f.AppHarbor, f.AppCommodo, f.AppTwin} {
 		must(e.App.AuctionKeeper.AddAuctionParams(e.Ctx, &bindings.MsgAddAuctionParams{AppID: app, AuctionDurationSeconds: 3600,
 			Buffer: d("1.2"), Cusp: d("0.7"), Step: 360, PriceFunctionType: 1, SurplusID: 1, DebtID: 2, DutchID: 3, BidDurationSeconds: 600}))
 	}
@@ -238,7 +244,7 @@ func NewFixture() *Fix {
 		app  uint64
 		gov  string
 		debt uint64
-	}{{f.AppHarbor, "uharbor", f.CMST}, {f.AppCommodo, "ugovc", f.CMST}} {
+	}{{f.AppHarbor, "uharbor", f.CMST}, {f.AppCommodo, "ugovc", f.CMST}, {f.AppTwin, "ugovt", f.CMST}} {
 		must(e.App.EsmKeeper.AddESMTriggerParamsForApp(e.Ctx, &bindings.MsgAddESMTriggerParams{AppID: x.app,
 			TargetValue: coin(x.gov, 1000*unit), CoolOffPeriod: 3600, AssetID: []uint64{x.debt}, Rates: []uint64{1000000}}))
 	}
@@ -251,6 +257,7 @@ func NewFixture() *Fix {
 	}
 	// a vault just above the minimum ratio: becomes unsafe when the hook cells lower the CMDX price
 	mustOK(e.Deliver(&vaulttypes.MsgCreateRequest{From: f.Risk.String(), AppId: f.AppHarbor, ExtendedPairVaultId: f.EpCmdx, AmountIn: i(1000 * unit), AmountOut: i(1300 * unit)}), "risk vault")
+	mustOK(e.Deliver(&vaulttypes.MsgCreateRequest{From: f.RiskTwin.String(), AppId: f.AppTwin, ExtendedPairVaultId: f.EpTwin, AmountIn: i(1000 * unit), AmountOut: i(1300 * unit)}), "risk vault of the twin app")
 	mustOK(e.Deliver(&vaulttypes.MsgCreateStableMintRequest{From: f.LP.String(), AppId: f.AppHarbor, ExtendedPairVaultId: f.EpStable, Amount: i(5000 * unit)}), "stable create")
 
 	// ---- lockers
